@@ -690,12 +690,14 @@ class PSFPhotometry(ModelImageMixin):
             flux -= init_params['local_bkg']
             init_params[fluxcolname] = flux
 
+        grouper = self.grouper
         if 'group_id' in init_params.colnames:
-            # grouper is ignored if group_id is input in init_params
-            self.grouper = None
-        if self.grouper is not None:
-            group_id = self.grouper(init_params[xcolname],
-                                    init_params[ycolname])
+            # grouper is ignored (for this call only) if group_id is
+            # input in init_params
+            grouper = None
+        if grouper is not None:
+            group_id = grouper(init_params[xcolname],
+                               init_params[ycolname])
         else:
             group_id = init_params['id'].copy()
         init_params['group_id'] = group_id
